@@ -46,7 +46,7 @@ DoNotify ==
 
 ReqTimes ==
   LET lo == IF lastq # None THEN (IF IsInteg(cfg) THEN lastq + 1 ELSE lastq)
-            ELSE IF st.lab = <<>> THEN 0 ELSE Max2(0, st.lab[1].t - 1)
+            ELSE IF st.lab = <<>> THEN 0 ELSE st.lab[1].t - 1      \* (also one tick before the first publication)
   IN lo..(NewestT + 1)
 
 DoGet ==
